@@ -200,7 +200,12 @@ class WaitUntilDecoratorManager(DecoratorManager):
 
     async def wait_until(self) -> dict[str, Any]:
         """Wait for dispatch and normalize the return payload."""
-        data = await self._future
+        try:
+            data = await self._future
+        finally:
+            # the waiting task may be cancelled (task.cancel, task.unique): do not leave the temporary decorators running
+            if self.status is DecoratorManagerStatus.RUNNING:
+                await self.stop()
         if data.trigger == self.timeout_decorator:
             ret = {"trigger_type": "timeout"}
         else:
